@@ -660,7 +660,7 @@ class Cone(Quadric):
         if radius == 0:
             raise ValueError("The radius of a cone can not be zero.")
 
-        from geometer.operators import angle, dist
+        from geometer.operators import dist
 
         h = dist(vertex, base_center)
         c = (radius / h) ** 2
@@ -689,9 +689,10 @@ class Cone(Quadric):
         new_axis = Line(vertex, base_center)
 
         if new_axis != axis:
-            a = angle(axis, new_axis)
-            e = axis.join(new_axis)
-            t = rotation(a, axis=Point(*e.array[:3]))
+            # t rotates the new axis onto the z-axis (rotation turns clockwise about the given axis vector)
+            d = np.real_if_close(new_axis.direction.array[:3])
+            d = d / np.linalg.norm(d)
+            t = rotation(np.arccos(d[2]), axis=Point(*np.cross([0, 0, 1], d)))
             t = translation(v) * t * translation(-v)
             m = t.array.T.dot(m).dot(t.array)
 
